@@ -4,13 +4,14 @@ spec/redis/Cluster.tla with one slot migration (set migrating/importing, move in
 at any point with client commands, the proxy's redirect handling (MOVED -> resend; ASK -> ASKING + resend as two
 separate enqueues) and the table refresh:
  1. exhaustive TLC run with a loaded table: EqualsReference, EffectOnce, SingleCopy, CopyIsReference, NoLostKey;
- 2. with an EMPTY table at start TLC finds the recorded counterexample (a command routed to a random node consumes
-    another request's ASKING flag on the importing node: two copies of a key) - it must still be found, and the
-    repaired design (AtomicAsk) must be clean (thorough tier);
+ 2. with an EMPTY table at start the pinned design (ASKING and the command as two separate sends) has a counterexample (a
+    command routed to a random node consumes another request's ASKING flag on the importing node: two copies of a key) -
+    TLC must still find it (anti-vacuity); the repaired design (AtomicAsk: the backend writer emits both back to back) is clean;
  3. spec -> code: TLC simulation emits command/migration histories; replayed end-to-end (see C03), replies compared
     with the single-server reference, no MOVED/ASK may reach the client, each write executed exactly once, one copy of
     each key at the end, redirections stop within 4 refresh rounds once the layout has settled (C07, second sentence);
- 4. the counterexample of (2) is forced on the real code with one pause point between ASKING and the resent command;
+ 4. the schedule of that counterexample is forced on the real code: the backend writer is parked between ASKING and the
+    command while other sessions send commands for keys of the migrating slot to the same node - none may run in between;
  5. failover: a master is replaced by its replica (old master dies or is demoted); TLC: ConvergesAfterDialError (the pinned
     variant without refresh-on-dial-error must fail); code: reads heal within a few requests, writes reach the new master.
 """
@@ -29,11 +30,14 @@ def run(ctx):
         "failover is modelled as a standby node taking over slots and data of a master that dies (no asynchronous replication lag); node semantics are those of harness/internal/simredis",
         "MaxHops bounds redirections per request in the exhaustive runs (state constraint)",
     ]
-    r = ctx.mc("redis", "MC_Cluster", "MC_Cluster_migration.cfg", workers=8, timeout=1500, coverage=False)
+    # the repaired code sends ASKING and the command back to back (AtomicAsk): clean with a loaded and with an empty table
+    r = ctx.mc("redis", "MC_Cluster", "MC_Cluster_migration_thorough.cfg" if ctx.thorough else "MC_Cluster_migration.cfg",
+               workers=8, timeout=1500, coverage=False)
+    ctx.mc("redis", "MC_Cluster", "MC_Cluster_migration_emptytable_atomic.cfg" if ctx.thorough else "MC_Cluster_migration_emptytable_atomic_quick.cfg",
+           workers=8, timeout=1500)
+    # the pinned design (two separate sends) must still yield its counterexample with an empty table (anti-vacuity)
     ctx.mc("redis", "MC_Cluster", "MC_Cluster_migration_emptytable.cfg", workers=8, timeout=900,
            expect_violated=["SingleCopy", "CopyIsReference", "EqualsReference"], count=False)
-    if ctx.thorough:
-        ctx.mc("redis", "MC_Cluster", "MC_Cluster_migration_emptytable_atomic.cfg", workers=8, timeout=1500)
     # failover: a master is replaced by a standby node and dies; a request that fails against the dead master must make
     # the table converge (repaired code: a dial error triggers a refresh); the pinned variant must fail
     ctx.mc("redis", "MC_Cluster", "MC_Cluster_failover_fixed.cfg", workers=8, timeout=900)
@@ -81,7 +85,7 @@ def run(ctx):
             ctx.notes.append("askrace: " + str(r.get("err")))
             continue
         ctx.case(key=["askrace", r["attempts"], r["stolen"]], nontrivial=True)
-        if r["copiesA1"] != 1:
+        if r["copiesA1"] != 1 or r["stolen"]:
             ctx.violation("split-key/asking-flag-stolen-empty-table",
                           "with an empty routing table a command sent to a random node ran on the importing node with another request's "
                           "ASKING flag: key has %d copies %s" % (r["copiesA1"], r["values"]), r)
